@@ -8,6 +8,33 @@ from .core import *
 from .interp import exc_is, LoopCtx
 
 
+def _simple_expr(e):
+    for n in ast.walk(e):
+        if isinstance(n, (ast.Call, ast.Yield, ast.YieldFrom, ast.Lambda, ast.ListComp, ast.DictComp, ast.GeneratorExp, ast.SetComp, ast.Await, ast.NamedExpr)):
+            return False
+    return True
+
+
+def _simple_branch(stmts):
+    """assignments of call-free expressions to names / attributes, `pass`, and nested ifs of the same shape"""
+    for st in stmts:
+        if isinstance(st, ast.Pass):
+            continue
+        if isinstance(st, ast.Assign):
+            if not _simple_expr(st.value):
+                return False
+            for t in st.targets:
+                if not isinstance(t, (ast.Name, ast.Attribute)) or not _simple_expr(t):
+                    return False
+            continue
+        if isinstance(st, ast.If):
+            if not _simple_expr(st.test) or not _simple_branch(st.body) or not _simple_branch(st.orelse):
+                return False
+            continue
+        return False
+    return True
+
+
 class StmtMixin:
 
     def exec_block(self, stmts, fr):
@@ -208,10 +235,78 @@ class StmtMixin:
 
     def st_If(self, st, fr):
         c = self.truth(self.ev(st.test, fr), fr, st)
+        cs = sym.simp(c)
+        if not (z3.is_true(cs) or z3.is_false(cs)) and _simple_branch(st.body) and _simple_branch(st.orelse):
+            if self.try_if_conversion(cs, st, fr):
+                return
         if self.run.decide(c, f'if@{st.lineno}'):
             self.exec_block(st.body, fr)
         else:
             self.exec_block(st.orelse, fr)
+
+    def try_if_conversion(self, c, st, fr):
+        """state merging for branches made of plain assignments: both sides are executed under the guard and
+        the resulting stores are joined with ite; falls back to forking when a branch needs a decision"""
+        run = self.run
+        snap = (dict(fr.loc), dict(self.heap.a), len(run.pc), len(run.obls), len(run.events), run.nfresh, run.nalloc, dict(run.boxes))
+
+        def restore():
+            fr.loc.clear(); fr.loc.update(snap[0])
+            self.heap.a.clear(); self.heap.a.update(snap[1])
+            del run.pc[snap[2]:]
+            del run.obls[snap[3]:]
+            del run.events[snap[4]:]
+            run.nfresh, run.nalloc = snap[5], snap[6]
+            run.boxes.clear(); run.boxes.update(snap[7])
+
+        results = []
+        run.no_fork += 1
+        run.solver.push()
+        try:
+            for guard, body in ((c, st.body), (sym.simp(z3.Not(c)), st.orelse)):
+                fr.loc.clear(); fr.loc.update(snap[0])
+                self.heap.a.clear(); self.heap.a.update(snap[1])
+                n0 = len(run.pc)
+                run.pc.append(guard)
+                try:
+                    self.exec_block(body, fr)
+                except (NoForkAbort, Stop, Unsupported):
+                    restore()
+                    return False
+                extra = run.pc[n0 + 1:]
+                del run.pc[n0:]
+                results.append((guard, dict(fr.loc), dict(self.heap.a), extra))
+        finally:
+            run.no_fork -= 1
+            run.solver.pop()
+        (g1, l1, h1, e1), (g2, l2, h2, e2) = results
+        # join
+        loc = {}
+        for k in set(l1) | set(l2):
+            a, b = l1.get(k), l2.get(k)
+            if a is b:
+                loc[k] = a
+            elif isinstance(a, SV) and isinstance(b, SV):
+                loc[k] = SV(sym.simp(z3.If(c, a.t, b.t)), hint=(a.hint | b.hint) if a.hint and b.hint else None)
+            elif isinstance(a, PathV) and isinstance(b, PathV):
+                loc[k] = PathV(z3.If(c, a.s, b.s))
+            else:
+                restore()
+                return False
+        heap = {}
+        for k in set(h1) | set(h2):
+            a, b = h1.get(k), h2.get(k)
+            if a is None or b is None:
+                base = z3.Const(f'H0!{k}', sym.heap_sort(k))
+                a = a if a is not None else base
+                b = b if b is not None else base
+            heap[k] = a if a.eq(b) else z3.If(c, a, b)
+        fr.loc.clear(); fr.loc.update(loc)
+        self.heap.a.clear(); self.heap.a.update(heap)
+        for g, extra in ((g1, e1), (g2, e2)):
+            for x in extra:
+                run.assume(z3.Implies(g, x))
+        return True
 
     def st_Assert(self, st, fr):
         c = self.truth(self.ev(st.test, fr), fr, st)
@@ -377,6 +472,8 @@ class StmtMixin:
                     return TupleV([self.unbox(key), self.unbox(val)])
                 if z3.is_int_value(n):
                     return ('concrete', [elem(z3.IntVal(i)) for i in range(n.as_long())])
+                # built-in dict invariant (trusted axiom of dict objects), instantiated at the iteration index
+                self._iter_facts = lambda i, m=m: z3.Select(m.pos, z3.Select(m.keyat, i)) == i
                 return ('sym', n, elem, m)
             if k == 'list':
                 l = it.a
@@ -498,6 +595,8 @@ class StmtMixin:
 
     def run_loop(self, st, fr, ls, n, elem, snap):
         run = self.run
+        facts = getattr(self, '_iter_facts', None)
+        self._iter_facts = None
         o = fr.loop_ord.get(id(st))
         tag = f'loop{o}@{st.lineno}'
         entry_loc = dict(fr.loc)
@@ -546,6 +645,8 @@ class StmtMixin:
             # body preserves the invariant
             if n is not None:
                 run.assume(i < n)
+                if facts is not None:
+                    run.assume(facts(i))
                 self.assign(st.target, elem(i), fr)
             else:
                 cnd = self.truth(self.ev(st.test, fr), fr, st)
